@@ -257,6 +257,15 @@ func Check(env *core.Env, rep *core.Report) *core.Result {
 			_ = ioutil.WriteFile(filepath.Join(root, "b", "a"), []byte("x"), 0o644)
 			paths = []string{"a", "b", "b/a"}
 			inc = []string{"**/**/**/a"}
+		} else if i == 3 {
+			// adjacent doublestars in an EXCLUDE pattern: they exclude the top-level file too
+			_ = os.MkdirAll(filepath.Join(root, "b"), 0o755)
+			for _, f := range []string{"a", "ab", "b/a", "b/ab"} {
+				_ = ioutil.WriteFile(filepath.Join(root, f), []byte("x"), 0o644)
+			}
+			paths = []string{"a", "ab", "b", "b/a", "b/ab"}
+			inc = []string{"**"}
+			exc = []string{"**/**/a"}
 		} else if i == 2 {
 			// alternatives in braces (doublestar syntax outside Glob.tla's alphabet): judged with the
 			// library's own PathMatch below
